@@ -290,6 +290,22 @@ Definition init (seq0 start : N) (script : list (res bytes)) : st :=
 Definition stream (c : cfg) (seq0 : N) (script : list (res bytes)) (sched : list lap) : st * outcome :=
   laps c sched 0 (init seq0 (c_start c) script).
 
+(* StreamContext.reset(): rtpseq = randrange(2**16); start_ts = head_ts = now; padding_sent = 0
+   (latency = 22050 + sample_rate is the configuration's).  [seq_new] and [now] are what the
+   random generator and the clock deliver. *)
+Definition ctx_reset (s : st) (seq_new now : N) : st :=
+  {| s_seq := seq_new; s_head := now; s_pad := 0; s_src := s_src s; s_reads := s_reads s;
+     s_backlog := s_backlog s; s_out := s_out s |}.
+
+(* A further stream on the same StreamContext, whatever state [prev] an earlier stream left it in:
+   stream_file creates a new StreamClient (empty backlog) and audio transport around the
+   connection's context, opens the new source, and send_audio() resets the context. *)
+Definition next_stream (c : cfg) (prev : st) (seq_new : N) (script : list (res bytes)) (sched : list lap)
+  : st * outcome :=
+  laps c sched 0
+    (ctx_reset {| s_seq := s_seq prev; s_head := s_head prev; s_pad := s_pad prev; s_src := script;
+                  s_reads := O; s_backlog := []; s_out := [] |} seq_new (c_start c)).
+
 (* ------------------------------------------------------------------ control client *)
 
 (* ControlClient._retransmit_lost_packets(request, addr) - datagrams sent on the control
@@ -396,6 +412,7 @@ Definition check_req (lim : nat) (out : list bytes) (q : oreq) : bool :=
 
 Record ocase := {
   k_proto : protocol; k_fs : N; k_latency : N; k_start : N; k_ssrc : N; k_lim : N; k_close : option N;
+  k_prev : N * N * N;                       (* rtpseq, head_ts, padding_sent of the context before send_audio's reset() *)
   k_seq0 : N;
   k_srclen : N; k_pa : N; k_pb : N;         (* source = pattern pa pb srclen *)
   k_sched : list lap;
@@ -414,7 +431,10 @@ Definition check_case (k : ocase) : bool :=
               c_close := match k_close k with Some n => Some (n2n n) | None => None end |} in
   let src := pattern (k_pa k) (k_pb k) (n2n (k_srclen k)) in
   let script := file_script (S (n2n (k_srclen k))) (packet_size c) src in
-  let '(s, oc) := stream c (k_seq0 k) script (k_sched k) in
+  let '(pseq, phead, ppad) := k_prev k in
+  let prev := {| s_seq := pseq; s_head := phead; s_pad := ppad; s_src := []; s_reads := O; s_backlog := [];
+                 s_out := [] |} in
+  let '(s, oc) := next_stream c prev (k_seq0 k) script (k_sched k) in
   let '(fseq, fhead, fpad, freads) := k_final k in
   outcome_matches oc (k_outcome k)
   && list_beq bytes_beq (s_out s) (rebuild src (k_dgrams k))
